@@ -454,7 +454,8 @@ Section Contracts.
     prefix (fst (fst (load_plain' now p c1))) (fst (fst (load_plain' now (p ++ s) c2))).
   Proof.
     unfold load_plain.
-    destruct (read_blocks_prefix (S (length p)) (S (length (p ++ s))) p s c1 c2) as [m Hm]; [lia | lia |].
+    destruct (read_blocks_prefix (S (length p)) (S (length (p ++ s))) p s c1 c2) as [m Hm];
+      [apply Nat.lt_succ_diag_r | apply Nat.lt_succ_diag_r |].
     destruct (read_blocks (S (length p)) p c1) as [[ps al] st].
     destruct (read_blocks (S (length (p ++ s))) (p ++ s) c2) as [[ps' al'] st'].
     cbn [fst] in Hm. subst ps'.
